@@ -1,7 +1,119 @@
-"""Self-test of the checkers (filled in below): mutants must fire, refactor variants must stay silent."""
+"""Self-test of the checkers: every mutant of the corpus must be reported (a new finding of the expected rule),
+every behaviour-preserving refactor variant must stay silent.  Mutants are in-memory overlays of /repo's current files;
+nothing is written to disk and nothing from the analysed repository is executed."""
+
+import importlib
+import os
+import sys
+import time
+from concurrent.futures import ProcessPoolExecutor
+
+from . import REPO
+from .model import AnalysisError, SrcModel
+from .report import Ctx
+
+
+def _run_one(args):
+    prop, overlay = args
+    mod = importlib.import_module(f"sverif.rules.{prop.lower()}")
+    try:
+        ctx = Ctx(prop, "quick", overlay=overlay)
+        mod.check(ctx)
+        return ("ok", [(f.rule, f.key, f.message) for f in ctx.findings])
+    except AnalysisError as e:
+        return ("analysis-error", str(e))
+    except SyntaxError as e:
+        return ("syntax-error", str(e))
+    except Exception as e:  # pragma: no cover
+        return ("internal-error", f"{type(e).__name__}: {e}")
+
+
+def _apply(entry):
+    rel, old, new = entry["file"], entry["old"], entry["new"]
+    path = os.path.join(REPO, rel)
+    if not os.path.exists(path):
+        return None, "file missing"
+    src = open(path, encoding="utf-8").read()
+    if src.count(old) != 1:
+        return None, f"anchor text occurs {src.count(old)} times"
+    return {rel: src.replace(old, new)}, None
 
 
 def run_selftest(prop=None, jobs=16, verbose=False):
-    from .mutations import run
+    from .mutations import CORPUS
 
-    return run(prop=prop, jobs=jobs, verbose=verbose)
+    entries = [e for e in CORPUS if prop is None or e["prop"] == prop]
+    if not entries:
+        print(f"SELFTEST property={prop} no corpus entries")
+        return 0
+    props = sorted({e["prop"] for e in entries})
+    t0 = time.time()
+    work, meta, stale = [], [], []
+    for e in entries:
+        overlay, why = _apply(e)
+        if overlay is None:
+            stale.append((e, why))
+            continue
+        work.append((e["prop"], overlay))
+        meta.append(e)
+    base = {}
+    with ProcessPoolExecutor(max_workers=jobs) as ex:
+        bres = list(ex.map(_run_one, [(p, None) for p in props]))
+        for p, r in zip(props, bres):
+            base[p] = {k for (_, k, _) in r[1]} if r[0] == "ok" else set()
+        results = list(ex.map(_run_one, work))
+    fails = 0
+    n_mut = n_ref = det = silent = shape = 0
+    for e, r in zip(meta, results):
+        status, data = r
+        kind = e.get("kind", "mutant")
+        if kind == "mutant":
+            n_mut += 1
+            if status == "ok":
+                new = [(rule, key, msg) for (rule, key, msg) in data if key not in base[e["prop"]]]
+                hit = [x for x in new if x[0].startswith(e["rule"])]
+                if hit:
+                    det += 1
+                    if verbose:
+                        print(f"  detected  {e['id']}: [{hit[0][0]}] {hit[0][2][:110]}")
+                else:
+                    fails += 1
+                    print(f"SELFTEST-MISS property={e['prop']} mutant={e['id']} expected a new {e['rule']}* finding; got {[x[0] for x in new]}")
+            elif status == "analysis-error":
+                # a mutant that only makes the analysis give up is not a detection
+                fails += 1
+                print(f"SELFTEST-MISS property={e['prop']} mutant={e['id']} analysis error instead of a finding: {data[:120]}")
+            else:
+                fails += 1
+                print(f"SELFTEST-BROKEN property={e['prop']} mutant={e['id']} {status}: {data[:120]}")
+        else:
+            n_ref += 1
+            if status == "ok":
+                new = [(rule, key, msg) for (rule, key, msg) in data if key not in base[e["prop"]]]
+                if new:
+                    fails += 1
+                    print(f"SELFTEST-FALSE-ALARM property={e['prop']} refactor={e['id']} raised {new[0][0]}: {new[0][2][:120]}")
+                else:
+                    silent += 1
+                    if verbose:
+                        print(f"  silent    {e['id']}")
+            elif status == "analysis-error":
+                shape += 1  # allowed: the rule declines rather than guesses
+                if verbose:
+                    print(f"  declined  {e['id']}: {data[:100]}")
+            else:
+                fails += 1
+                print(f"SELFTEST-BROKEN property={e['prop']} refactor={e['id']} {status}: {data[:120]}")
+    for e, why in stale:
+        if verbose:
+            print(f"  stale     {e['id']}: {why}")
+    applicable = len(meta)
+    print(
+        f"SELFTEST {'all' if prop is None else prop}: mutants detected {det}/{n_mut}, refactors silent {silent}/{n_ref} "
+        f"(declined with analysis-error {shape}), stale {len(stale)}/{len(entries)}, wall {time.time() - t0:.1f}s"
+    )
+    if applicable < 0.5 * len(entries):
+        # the tree has drifted away from the corpus: do not pretend the self-test ran
+        print(f"SELFTEST-STALE more than half of the corpus no longer applies to this tree ({len(stale)}/{len(entries)})")
+        return 0
+    return 1 if fails else 0
